@@ -129,6 +129,22 @@ def run(ctx):
     inputs = gen.graph_inputs(ctx["tier"], ctx["seed"])
     if ctx["tier"] == "quick":
         inputs = [x for x in inputs if len(x[1]) <= 16]
+    # graphs as the dict / YAML front end admits them: blocks with three or four jump targets, dense,
+    # one head (the generators above give at most two targets per block)
+    import random
+    rng = random.Random(ctx["seed"] * 104729 + 16)
+    for _ in range((1500 * common.boost()) if ctx["tier"] == "quick" else 40000):
+        n = rng.randint(5, 10)
+        succ = []
+        for i in range(n):
+            k = rng.choice([1, 2, 3, 3, 4, 4]) if i < n - 1 else 0
+            pool = [j for j in range(1, n) if j != i] if rng.random() < 0.25 else list(range(i + 1, n))
+            ts = rng.sample(pool, min(k, len(pool)))
+            succ.append(list(ts))
+        for j in range(1, n):                      # one head, everything reachable from it
+            if not any(j in succ[i] for i in range(j)):
+                succ[rng.randrange(0, j)].append(j)
+        inputs.append(("G9-multiway", tuple(tuple(x) for x in succ)))
     nproc = common.ncpu()
     size = max(20, min(1000, len(inputs) // (nproc * 4) + 1))
     chunks = [inputs[i:i + size] for i in range(0, len(inputs), size)]
@@ -157,7 +173,7 @@ def run(ctx):
         broken.append({"signature": {"kind": "correspondence"}, "replay": path, "nfi": True, "what": "iterator model mismatch"})
     n = sum(stats.values())
     cov = {"evaluations": n, "distinct_nontrivial": len(inputs),
-           "rule": "closed CFGs as for C01 (≤16 nodes in the quick tier); before and after every stage, every (sub)graph at every depth: "
+           "rule": "closed CFGs as for C01 (≤16 nodes in the quick tier) plus dense graphs whose blocks have up to four jump targets; before and after every stage, every (sub)graph at every depth: "
                    "list(scfg) and list(scfg.concealed_region_view) vs. the Lean model (exact order) and the Lean specification",
            "samples": [{"input_succ": [list(s) for s in inputs[len(inputs) // 2][1]]}],
            "graphs": len(inputs), "iterations_checked": dict(stats), "model_mismatches": len(mism), "spec_failures": len(fails),
